@@ -254,10 +254,15 @@ class Interp:
             return True
         if isinstance(v, self.B.IterVal):
             raise Unsupported("truthiness of an iterator")
+        h = getattr(v, "__vf_truth__", None)
+        if h is not None:
+            return h(self)
         h = getattr(v, "__vf_len__", None)
         if h is not None:
             n = h(self)
             return n > 0 if isinstance(n, int) else to_z3(n) > 0
+        if type(v).__name__ == "Tensor":
+            raise Unsupported("truthiness of a tensor with more than one element")
         return True
 
     def decide(self, v):
@@ -802,6 +807,11 @@ class Interp:
         for op, r in zip(e.ops, e.comparators):
             right = self.eval(r)
             c = self.B.compare(self, op, left, right)
+            if not isinstance(c, bool) and not is_z3(c):
+                # an elementwise comparison (e.g. of tensors) yields a value, not a truth value
+                if len(e.ops) != 1:
+                    raise Unsupported("chained comparison of non-scalar values")
+                return c
             res = zand(res, c)
             if res is False:
                 return False
